@@ -930,6 +930,14 @@ func DMLCases(yield func(name string, s S)) {
 		s2.Query = &q
 		yield("insert-select", s2.Build())
 	}
+	// the lists of the upsert clause with two and three elements (conflict target, assignments), with and without WHERE
+	for nset := 2; nset <= 3; nset++ {
+		set := []Assign{{"c2", Str("s2")}, {"c3", Bin("+", Col("c3"), Int("1"))}, {"c4", Func("f5", []X{Col("c5")}, FuncOpts{})}}[:nset]
+		yield("insert-upsert-lists", Ins{Table: "t1", Cols: []string{"c1", "c2"}, Rows: [][]X{{Int("1"), Str("s1")}},
+			OnConflict: &OnConflict{Target: []string{"c1"}, Set: set}}.Build())
+		yield("insert-upsert-lists", Ins{Table: "t1", Cols: []string{"c1", "c2"}, Rows: [][]X{{Int("1"), Str("s1")}},
+			OnConflict: &OnConflict{Target: []string{"c1", "c2"}, Set: set, Where: xp(Bin(">", Col("c6"), Int("0")))}, Returning: []X{Col("c1")}}.Build())
+	}
 	yield("insert-with", Ins{With: with, Table: "t1", Cols: []string{"c1"}, Query: func() *S { q := simpleSel("w1"); return &q }()}.Build())
 	yield("insert-returning-star", Ins{Table: "t1", Rows: [][]X{{Int("1")}}, Returning: []X{Star()}}.Build())
 	for m := 0; m < 1<<6; m++ {
